@@ -53,7 +53,6 @@ impl CellBox {
     #[verifier::external_body] pub fn as_ref(&self) -> (r: &Cell) ensures *r == self.cell() { unimplemented!() }
     #[verifier::external_body] pub fn from(c: Cell) -> (r: CellBox) ensures r.cell() == c { unimplemented!() }
 }
-#[verifier::external_body] pub struct Lex { _p: u8 }
 #[verifier::external_body] pub struct TokenLocation { _p: u8 }
 #[verifier::external_body] pub struct OutString { _p: u8 }
 
